@@ -1456,6 +1456,434 @@ def _converters_in(R: Report, r_cell, rel: str, fn: ast.AST, done: Set[Tuple]) -
 
 
 # ---------------------------------------------------------------------------------------------
+# D1: a source parser is given the file's own text, whole or one line-feed-delimited record of it
+# ---------------------------------------------------------------------------------------------
+# Seed C08-6a: the NDJSON branch iterated `handle.read().splitlines()` instead of the open file.  str.splitlines() also
+# cuts at U+2028 / U+2029 / U+0085 / VT / FF / FS / GS / RS; the first three are legal unescaped inside a JSON string
+# (json.dumps(.., ensure_ascii=False) writes them), so a valid record is cut in two and the declared source is rejected.
+# The rule follows the value handed to every text parser in the call graph of expand_run_space back to the read of
+# the file (reaching definitions, loop / comprehension elements, with-items, parameters through their call sites,
+# results of helpers through their returns) and classifies every operation on the way.
+_TEXT_PARSERS = {
+    "json.loads": "text", "json.load": "text", "yaml.safe_load": "text", "yaml.load": "text", "yaml.full_load": "text", "yaml.unsafe_load": "text",
+    "yaml.safe_load_all": "text", "yaml.load_all": "text", "tomllib.loads": "text", "tomllib.load": "text", "json.JSONDecoder.decode": "text",
+    "csv.reader": "lines", "csv.DictReader": "lines",
+}
+_PARSER_ARG_NAMES = ("s", "fp", "stream", "csvfile", "f")
+_REWRITING_METHODS = {
+    "replace", "translate", "lower", "upper", "casefold", "title", "swapcase", "capitalize", "expandtabs", "partition", "rpartition",
+    "rsplit", "removeprefix", "removesuffix", "ljust", "rjust", "center", "zfill", "format",
+}
+_REWRITING_CALLS = {"re.sub", "re.subn", "unicodedata.normalize", "textwrap.dedent", "textwrap.fill", "textwrap.shorten", "html.unescape"}
+_STRIPS = ("strip", "rstrip", "lstrip")
+_JSON_BLANKS = set(" \t\r\n")
+_GOOD_TAGS = {"whole", "line", "lines", "handle"}
+_SPLITLINES_NOTE = "str.splitlines() also cuts at U+2028, U+2029, U+0085, VT, FF, FS, GS and RS; U+2028 / U+2029 / U+0085 are legal unescaped inside a JSON string (json.dumps(.., ensure_ascii=False) writes them) and inside a csv / yaml cell"
+
+
+class _TextUnits:
+    """Provenance of the text handed to the parsers of source files."""
+
+    def __init__(self, repo: Repo) -> None:
+        self.repo = repo
+        mod = repo.module(RS)
+        closure = repo.call_graph_closure([(mod, repo.func(RS, ERS))])
+        self.ctx: Dict[int, Tuple[object, ast.AST, ast.AST, Flow]] = {}  # id(original function) -> (module, original, normal form, flow)
+        for _k, (m, node, _path) in sorted(closure.items(), key=lambda kv: (kv[1][0].rel, getattr(kv[1][1], "lineno", 0))):
+            if not isinstance(node, FuncNode):
+                continue
+            qn = next((q for q, n in m.defs.items() if n is node), None)
+            fn = node
+            if qn is not None and "." not in qn:
+                try:
+                    fn = nfunc(repo, m.rel, qn, keep=KEEP, copyprop="temps")
+                except AnalysisError:
+                    raise
+                except Exception:
+                    fn = node
+            self.ctx[id(node)] = (m, node, fn, Flow(fn))
+        self.of_nf: Dict[int, int] = {id(v[2]): k for k, v in self.ctx.items()}
+        self.call_sites: Dict[int, List[Tuple[int, ast.Call]]] = {}
+        self.call_targets: Dict[int, List[int]] = {}
+        for fid, (m, _node, fn, _F) in self.ctx.items():
+            for c in [n for n in _walk_fn(fn) if isinstance(n, ast.Call)]:
+                for _tm, tn in repo.resolve_call(m, c):
+                    if id(tn) in self.ctx:
+                        self.call_sites.setdefault(id(tn), []).append((fid, c))
+                        self.call_targets.setdefault(id(c), []).append(id(tn))
+        self._busy: Set[Tuple] = set()
+
+    # ---- names ------------------------------------------------------------------------------
+    def ext(self, fid: int, f: ast.AST) -> Optional[str]:
+        """Dotted name of a callee with the module's import aliases resolved (`from json import loads` -> json.loads)."""
+        d = dotted_name(f)
+        if d is None:
+            return None
+        head, _, rest = d.partition(".")
+        target = self.ctx[fid][0].imports.get(head)
+        if target is None:
+            return d
+        return f"{target}.{rest}" if rest else target
+
+    def open_call(self, fid: int, c: ast.AST) -> Optional[Dict[str, Optional[ast.AST]]]:
+        """errors= / newline= / mode of a call that opens a file (builtin / io / codecs open, or the open method of a path)."""
+        if not (isinstance(c, ast.Call) and call_attr(c) == "open"):
+            return None
+        d = self.ext(fid, c.func) or ""
+        if isinstance(c.func, ast.Name) or d.split(".")[0] in _OPEN_MODULES:
+            order = ["file", "mode", "buffering", "encoding", "errors", "newline"]
+        else:
+            order = ["mode", "buffering", "encoding", "errors", "newline"]
+        got: Dict[str, Optional[ast.AST]] = {k: None for k in order}
+        for i, a in enumerate(c.args):
+            if isinstance(a, ast.Starred):
+                break
+            if i < len(order):
+                got[order[i]] = a
+        for kw in c.keywords:
+            if kw.arg in got:
+                got[kw.arg] = kw.value
+        return got
+
+    @staticmethod
+    def _lenient(errors: Optional[ast.AST]) -> bool:
+        return errors is not None and not (isinstance(errors, ast.Constant) and errors.value in (None, "strict"))
+
+    # ---- the classification --------------------------------------------------------------------
+    # A result is (tags, findings): tags out of whole / line / lines / handle / handle-oddnl (what a good provenance
+    # looks like), const / opaque (not file content as far as can be seen), unknown (file content through an operation
+    # this analysis does not know); findings are (node, what is wrong) for operations known to cut or rewrite content.
+    def text(self, fid: int, e: Optional[ast.AST], at: ast.AST, depth: int = 0) -> Tuple[Set[str], List[Tuple[ast.AST, str]]]:
+        if e is None or depth > 12:
+            return {"opaque"}, []
+        key = (fid, id(e))
+        if key in self._busy:
+            return set(), []
+        self._busy.add(key)
+        try:
+            return self._text(fid, e, at, depth)
+        finally:
+            self._busy.discard(key)
+
+    def _union(self, parts: Sequence[Tuple[Set[str], List]]) -> Tuple[Set[str], List[Tuple[ast.AST, str]]]:
+        tags: Set[str] = set()
+        bad: List[Tuple[ast.AST, str]] = []
+        for t, b in parts:
+            tags |= t
+            bad += b
+        return tags, bad
+
+    def _derived(self, parts: Sequence[Tuple[Set[str], List]]) -> Tuple[Set[str], List[Tuple[ast.AST, str]]]:
+        """Result of an operation this analysis does not know, applied to *parts*."""
+        tags, bad = self._union(parts)
+        filey = tags & (_GOOD_TAGS | {"handle-oddnl", "unknown"})
+        return ({"unknown"} if filey else {"opaque"}), bad
+
+    def _text(self, fid: int, e: ast.AST, at: ast.AST, depth: int) -> Tuple[Set[str], List[Tuple[ast.AST, str]]]:
+        m, _node, fn, F = self.ctx[fid]
+        d1 = depth + 1
+        if isinstance(e, ast.Constant):
+            return {"const"}, []
+        if isinstance(e, ast.NamedExpr):
+            return self.text(fid, e.value, at, d1)
+        if isinstance(e, ast.IfExp):
+            return self._union([self.text(fid, e.body, at, d1), self.text(fid, e.orelse, at, d1)])
+        if isinstance(e, ast.BoolOp):
+            return self._union([self.text(fid, v, at, d1) for v in e.values])
+        if isinstance(e, ast.Name):
+            return self._name(fid, e, at, d1)
+        if isinstance(e, (ast.GeneratorExp, ast.ListComp, ast.SetComp)):
+            tags, bad = self.text(fid, e.elt, at, d1)
+            if isinstance(e, ast.SetComp) and tags & _GOOD_TAGS:
+                bad = bad + [(e, "the records are collected into a set: file order and repeated records are lost")]
+            return ({"lines" if t in ("line", "whole") else t for t in tags}), bad
+        if isinstance(e, ast.Subscript):
+            tags, bad = self.text(fid, e.value, at, d1)
+            if isinstance(e.slice, ast.Slice):
+                if tags & {"whole", "line"}:
+                    bad = bad + [(e, "the text is sliced before it is parsed: part of the record is dropped")]
+                return tags, bad
+            return ({"line" if t == "lines" else t for t in tags}), bad
+        if isinstance(e, (ast.BinOp, ast.JoinedStr, ast.FormattedValue, ast.Starred, ast.Tuple, ast.List)):
+            kids = [x for x in ast.iter_child_nodes(e) if isinstance(x, ast.expr)]
+            return self._derived([self.text(fid, x, at, d1) for x in kids])
+        if isinstance(e, ast.Call):
+            return self._call(fid, e, at, d1)
+        return {"opaque"}, []
+
+    def _comp_binding(self, name: ast.Name) -> Optional[Tuple[ast.comprehension, ast.AST]]:
+        for a in ancestors(name):
+            if isinstance(a, COMPS):
+                for gen in reversed(a.generators):
+                    if any(isinstance(t, ast.Name) and t.id == name.id for t in ast.walk(gen.target)):
+                        return gen, a
+            if isinstance(a, ast.Lambda) and any(x.arg == name.id for x in a.args.args):
+                return None
+        return None
+
+    def _name(self, fid: int, e: ast.Name, at: ast.AST, depth: int) -> Tuple[Set[str], List[Tuple[ast.AST, str]]]:
+        m, node, fn, F = self.ctx[fid]
+        cb = self._comp_binding(e)
+        if cb is not None:
+            return self._element(fid, cb[0].iter, cb[0].target, e.id, at, depth)
+        a = fn.args  # type: ignore[attr-defined]
+        params = [x.arg for x in a.posonlyargs + a.args + a.kwonlyargs]
+        try:
+            ds = F.defs(e.id, at)
+        except AnalysisError:
+            return {"opaque"}, []
+        parts: List[Tuple[Set[str], List]] = []
+        for d in ds:
+            if d[0] == "val":
+                if isinstance(d[1], ast.Name) and d[1].id == e.id:
+                    continue
+                parts.append(self.text(fid, d[1], d[2], depth))
+            elif d[0] == "item":
+                vals = [v for v, _s in F.values(d[1], d[3])]
+                if vals and all(isinstance(v, (ast.Tuple, ast.List)) and len(v.elts) > d[2] and not any(isinstance(x, ast.Starred) for x in v.elts) for v in vals):
+                    parts.extend(self.text(fid, v.elts[d[2]], d[3], depth) for v in vals)
+                else:
+                    parts.append(self._derived([self.text(fid, d[1], d[3], depth)]))
+            elif d[0] == "iter":
+                parts.append(self._element(fid, d[1].iter, d[1].target, e.id, d[1], depth))
+            elif d[0] == "aug":
+                parts.append(self._derived([self.text(fid, d[1].value, d[1], depth)] + [({"unknown"}, [])]))
+            else:
+                st = d[1]
+                item = next((it for it in getattr(st, "items", []) if isinstance(it.optional_vars, ast.Name) and it.optional_vars.id == e.id), None) if isinstance(st, (ast.With, ast.AsyncWith)) else None
+                if item is not None:
+                    parts.append(self.text(fid, item.context_expr, st, depth))
+                else:
+                    parts.append(({"opaque"}, []))
+        if not ds and e.id in params:
+            if e.id in ("self", "cls"):
+                return {"opaque"}, []
+            sites = self.call_sites.get(fid, [])
+            for cfid, c in sites:
+                arg = _bind_args(c, node).get(e.id)
+                if arg is not None:
+                    parts.append(self.text(cfid, arg, stmt_of(c), depth))
+                else:
+                    parts.append(({"opaque"}, []))
+        return self._union(parts) if parts else ({"opaque"}, [])
+
+    def _element(self, fid: int, it: ast.AST, target: ast.AST, name: str, at: ast.AST, depth: int) -> Tuple[Set[str], List[Tuple[ast.AST, str]]]:
+        """What one element of the iteration `for <target> in <it>` bound to *name* stands for."""
+        if isinstance(target, (ast.Tuple, ast.List)):
+            idx = next((i for i, t in enumerate(target.elts) if isinstance(t, ast.Name) and t.id == name), None)
+            if idx is None or not isinstance(it, ast.Call):
+                return self._derived([self.text(fid, it, at, depth)])
+            d = self.ext(fid, it.func)
+            if d == "enumerate" and it.args:
+                if idx == 0:
+                    return {"const"}, []
+                it = it.args[0]
+            elif d == "zip" and len(it.args) > idx and not any(isinstance(x, ast.Starred) for x in it.args):
+                it = it.args[idx]
+            elif self.call_targets.get(id(it)):
+                # a generator of the package that yields tuple displays: the element is the item at the same position
+                parts: List[Tuple[Set[str], List]] = []
+                for tid in self.call_targets[id(it)]:
+                    tfn = self.ctx[tid][2]
+                    ys = [n for n in _walk_fn(tfn) if isinstance(n, ast.Yield)]
+                    if not ys or any(isinstance(n, ast.YieldFrom) for n in _walk_fn(tfn)) or not all(isinstance(y.value, ast.Tuple) and len(y.value.elts) > idx and not any(isinstance(x, ast.Starred) for x in y.value.elts) for y in ys):
+                        return self._derived([self.text(fid, it, at, depth)])
+                    parts.extend(self.text(tid, y.value.elts[idx], stmt_of(y), depth) for y in ys)
+                return self._union(parts)
+            else:
+                return self._derived([self.text(fid, it, at, depth)])
+        tags, bad = self.lines(fid, it, at, depth)
+        return ({"line" if t == "lines" else t for t in tags}), bad
+
+    def lines(self, fid: int, e: ast.AST, at: ast.AST, depth: int) -> Tuple[Set[str], List[Tuple[ast.AST, str]]]:
+        """*e* used as an iterable of text units: 'lines' when its elements are the line-feed-delimited lines of a file."""
+        tags, bad = self.text(fid, e, at, depth + 1)
+        out: Set[str] = set()
+        for t in tags:
+            if t == "handle":
+                out.add("lines")
+            elif t == "handle-oddnl":
+                out.add("lines")
+                bad = bad + [(e, "the file is opened with a newline= other than None / '' / '\\n': iterating it no longer ends a record at every line feed")]
+            elif t == "whole":
+                out.add("unknown")  # a text iterated as such gives characters
+            elif t == "line":
+                out.add("unknown")
+            else:
+                out.add(t)
+        return out, bad
+
+    def _call(self, fid: int, c: ast.Call, at: ast.AST, depth: int) -> Tuple[Set[str], List[Tuple[ast.AST, str]]]:
+        m, _node, fn, F = self.ctx[fid]
+        d = self.ext(fid, c.func) or ""
+        attr = call_attr(c)
+        oc = self.open_call(fid, c)
+        if oc is not None:
+            bad: List[Tuple[ast.AST, str]] = []
+            if self._lenient(oc["errors"]):
+                bad.append((c, f"the file is opened with errors={_u(oc['errors'])}: bytes that do not decode are dropped or replaced instead of being rejected, the parser sees text that is not in the file"))
+            nl = oc["newline"]
+            odd = nl is not None and not (isinstance(nl, ast.Constant) and nl.value in (None, "", "\n"))
+            return {"handle-oddnl" if odd else "handle"}, bad
+        if isinstance(c.func, ast.Attribute):
+            recv = c.func.value
+            if attr in ("read_text", "read_bytes"):
+                errs = kwarg(c, "errors") or (c.args[1] if attr == "read_text" and len(c.args) > 1 else None)
+                bad = [(c, f"the file is read with errors={_u(errs)}: bytes that do not decode are dropped or replaced, the parser sees text that is not in the file")] if self._lenient(errs) else []
+                return {"whole"}, bad
+            if attr in ("read", "readline", "readlines", "__iter__", "__next__") and not d.startswith(("json.", "yaml.", "csv.")):
+                tags, bad = self.text(fid, recv, at, depth)
+                if not tags & {"handle", "handle-oddnl"}:
+                    return self._derived([(tags, bad)])
+                sized = [a for a in c.args if not (isinstance(a, ast.Constant) and a.value in (None, -1)) and not (isinstance(a, ast.UnaryOp) and isinstance(a.op, ast.USub))] + [kw.value for kw in c.keywords]
+                if sized:
+                    return {"unknown"}, bad + [(c, f"`{_u(c)}` reads a bounded part of the file: a record longer than the bound is cut")]
+                if attr == "read":
+                    return {"whole"}, bad
+                if "handle-oddnl" in tags:
+                    bad = bad + [(c, "the file is opened with a newline= other than None / '' / '\\n': its lines no longer end at every line feed")]
+                return {"line" if attr in ("readline", "__next__") else "lines"}, bad
+            if attr in _STRIPS:
+                chars = c.args[0] if c.args else kwarg(c, "chars")
+                tags, bad = self.text(fid, recv, at, depth)
+                if chars is not None and not (isinstance(chars, ast.Constant) and (chars.value is None or (isinstance(chars.value, (str, bytes)) and set(chars.value if isinstance(chars.value, str) else chars.value.decode("latin-1")) <= _JSON_BLANKS))) and tags & (_GOOD_TAGS | {"unknown"}):
+                    bad = bad + [(c, f"`{_u(c)[:60]}` strips characters other than blanks from the text before it is parsed")]
+                return tags, bad
+            if attr in ("decode", "encode"):
+                tags, bad = self.text(fid, recv, at, depth)
+                errs = kwarg(c, "errors") or (c.args[1] if len(c.args) > 1 else None)
+                if self._lenient(errs) and tags & (_GOOD_TAGS | {"unknown"}):
+                    bad = bad + [(c, f"`{_u(c)[:60]}` drops or replaces what does not {attr} instead of rejecting the file")]
+                return tags, bad
+            if attr == "splitlines":
+                tags, bad = self.text(fid, recv, at, depth)
+                if tags & {"whole", "line", "unknown"}:
+                    return {"lines"}, bad + [(c, f"`{_u(c)[:70]}` cuts the file's text at more than the line feed that separates records: {_SPLITLINES_NOTE}; a record that holds one of them is cut in two")]
+                return self._derived([(tags, bad)])
+            if attr == "split":
+                tags, bad = self.text(fid, recv, at, depth)
+                sep = c.args[0] if c.args else kwarg(c, "sep")
+                limited = len(c.args) > 1 or kwarg(c, "maxsplit") is not None
+                if tags & {"whole", "line", "unknown"}:
+                    if "line" in tags and "whole" not in tags:
+                        return {"unknown"}, bad + [(c, f"`{_u(c)[:70]}` cuts a single record into pieces before it is parsed")]
+                    if sep is None or (isinstance(sep, ast.Constant) and sep.value is None):
+                        return {"lines"}, bad + [(c, f"`{_u(c)[:70]}` cuts the file's text at every run of blanks (and at U+2028 / U+2029 / U+0085 ...), not at the line feed that separates records: a record holding a blank inside a string is cut")]
+                    if not (isinstance(sep, ast.Constant) and sep.value in ("\n", b"\n")) or limited:
+                        return {"lines"}, bad + [(c, f"`{_u(c)[:70]}` does not cut the file's text at every line feed (and only there): records are delimited by the line feed")]
+                    return {"lines"}, bad
+                return self._derived([(tags, bad)])
+            if attr in _REWRITING_METHODS:
+                tags, bad = self.text(fid, recv, at, depth)
+                if tags & (_GOOD_TAGS | {"unknown"}):
+                    return tags, bad + [(c, f"`{_u(c)[:70]}` rewrites the file's text before it is parsed: the cells are no longer the ones written in the file")]
+                return {"opaque"}, bad
+            if attr == "join" and len(c.args) == 1:
+                return self._derived([self.text(fid, c.args[0], at, depth)])
+        if d in _REWRITING_CALLS:
+            parts = [self.text(fid, a, at, depth) for a in c.args]
+            tags, bad = self._union(parts)
+            if tags & (_GOOD_TAGS | {"unknown"}):
+                return (tags & (_GOOD_TAGS | {"unknown"})), bad + [(c, f"`{_u(c)[:70]}` rewrites the file's text before it is parsed: the cells are no longer the ones written in the file")]
+            return {"opaque"}, bad
+        if d == "re.split" and len(c.args) >= 2:
+            tags, bad = self.text(fid, c.args[1], at, depth)
+            if tags & {"whole", "line", "unknown"}:
+                p = c.args[0]
+                ok = isinstance(p, ast.Constant) and isinstance(p.value, str) and "\n" in p.value.replace("\\n", "\n") and not (set(p.value.replace("\\r", "").replace("\\n", "").replace("\r", "").replace("\n", "")) - set("?|[]()+:")) and len(c.args) == 2 and not c.keywords and "whole" in tags
+                if not ok:
+                    bad = bad + [(c, f"`{_u(c)[:70]}` does not cut the file's text at every line feed (and only there): records are delimited by the line feed")]
+                return {"lines"}, bad
+            return self._derived([(tags, bad)])
+        if d in ("str", "iter", "list", "tuple", "bytes") and len(c.args) == 1 and not c.keywords:
+            return self.text(fid, c.args[0], at, depth)
+        if d in ("io.StringIO", "io.BytesIO", "io.TextIOWrapper", "io.BufferedReader", "codecs.getreader") and c.args:
+            tags, bad = self.text(fid, c.args[0], at, depth)
+            errs = kwarg(c, "errors")
+            if self._lenient(errs):
+                bad = bad + [(c, f"`{_u(c)[:60]}` decodes with errors={_u(errs)}: bytes that do not decode are dropped or replaced")]
+            nl = kwarg(c, "newline")
+            odd = nl is not None and not (isinstance(nl, ast.Constant) and nl.value in (None, "", "\n"))
+            if tags & {"whole", "handle", "handle-oddnl"}:
+                return {"handle-oddnl" if odd or "handle-oddnl" in tags else "handle"}, bad
+            return self._derived([(tags, bad)])
+        if d == "enumerate" and c.args:
+            return self._derived([self.text(fid, c.args[0], at, depth)])
+        if d == "next" and c.args:
+            tags, bad = self.lines(fid, c.args[0], at, depth)
+            return ({"line" if t == "lines" else t for t in tags}), bad
+        if d in ("sorted", "reversed") and c.args:
+            tags, bad = self.text(fid, c.args[0], at, depth)
+            if tags & {"lines", "handle", "handle-oddnl"}:
+                return tags, bad + [(c, f"`{_u(c)[:60]}` reorders the records of the file: rows are taken in file order")]
+            return self._derived([(tags, bad)])
+        if d == "filter" and len(c.args) == 2:
+            return self.lines(fid, c.args[1], at, depth)
+        if d == "map" and len(c.args) == 2:
+            f = c.args[0]
+            fd = self.ext(fid, f) or ""
+            if fd in ("str.strip", "str.rstrip", "str.lstrip", "str"):
+                return self.lines(fid, c.args[1], at, depth)
+            if fd in ("str.splitlines", "str.split", "str.lower", "str.upper", "str.casefold", "str.title", "str.swapcase", "str.capitalize", "str.expandtabs"):
+                tags, bad = self.lines(fid, c.args[1], at, depth)
+                if tags & (_GOOD_TAGS | {"unknown"}):
+                    bad = bad + [(c, f"`{_u(c)[:60]}` cuts / rewrites every record before it is parsed")]
+                return tags, bad
+            return self._derived([self.text(fid, c.args[1], at, depth)])
+        targets = self.call_targets.get(id(c))
+        if targets:
+            parts = []
+            for tid in targets:
+                _tm, _tn, tfn, _tF = self.ctx[tid]
+                rets = [r for r in _walk_fn(tfn) if isinstance(r, ast.Return) and r.value is not None]
+                if any(isinstance(n, (ast.Yield, ast.YieldFrom)) for n in _walk_fn(tfn)):
+                    ys = [n for n in _walk_fn(tfn) if isinstance(n, ast.Yield) and n.value is not None]
+                    got = self._union([self.text(tid, y.value, stmt_of(y), depth) for y in ys]) if ys else ({"opaque"}, [])
+                    parts.append(({"lines" if t in ("line", "whole") else t for t in got[0]}, got[1]))
+                    if any(isinstance(n, ast.YieldFrom) for n in _walk_fn(tfn)):
+                        parts.extend(self.text(tid, n.value, stmt_of(n), depth) for n in _walk_fn(tfn) if isinstance(n, ast.YieldFrom))
+                    continue
+                parts.extend(self.text(tid, r.value, r, depth) for r in rets)
+            return self._union(parts) if parts else ({"opaque"}, [])
+        kids = list(c.args) + [kw.value for kw in c.keywords] + ([c.func.value] if isinstance(c.func, ast.Attribute) else [])
+        return self._derived([self.text(fid, k.value if isinstance(k, ast.Starred) else k, at, depth) for k in kids])
+
+    # ---- the rule -------------------------------------------------------------------------------
+    def judge(self, R: Report, rule: str) -> None:
+        for fid, (m, node, fn, F) in self.ctx.items():
+            for c in [n for n in _walk_fn(fn) if isinstance(n, ast.Call)]:
+                d = self.ext(fid, c.func) or ""
+                kind = _TEXT_PARSERS.get(d)
+                if kind is None:
+                    continue
+                arg = c.args[0] if c.args and not isinstance(c.args[0], ast.Starred) else next((kw.value for kw in c.keywords if kw.arg in _PARSER_ARG_NAMES), None)
+                if arg is None:
+                    continue
+                st = stmt_of(c)
+                tags, bad = self.text(fid, arg, st)
+                if kind == "lines" and not bad and not tags & {"handle", "handle-oddnl", "lines"} and tags & {"whole", "line"}:
+                    tags = {"unknown"}
+                name = getattr(fn, "name", "?")
+                label = f"text handed to `{d}`: `{norm(c)[:60]}`"
+                if bad:
+                    where, what = bad[0]
+                    R.violation(rule, m.rel, name, label, what + " - the expansion of a valid source is rejected or returns rows that were not declared", getattr(where, "lineno", getattr(c, "lineno", 0)))
+                elif "unknown" in tags:
+                    raise AnalysisError(f"{name}: the text handed to `{norm(c)[:60]}` (line {getattr(c, 'lineno', 0)}) comes from a source file through an operation this analysis does not classify")
+                elif tags & _GOOD_TAGS or "handle-oddnl" in tags:
+                    R.ok(rule, m.rel, name, label)
+
+
+def _record_units(repo: Repo, R: Report) -> None:
+    rule = R.rule(
+        "C08-D1-source-records",
+        "the text handed to a parser of source content (json / yaml / csv) in the call graph of expand_run_space is the file's own text as decoded strictly - the whole file, the open file, or one record of it as delimited by the line feed (iterating the open file, readline(s), split('\\n')), at most stripped of blanks; nothing on the way cuts it elsewhere (str.splitlines(), split() at blanks, slicing, bounded reads), rewrites it (replace, case folding, re.sub, lenient decoding) or reorders the records",
+        3,
+    )
+    _TextUnits(repo).judge(R, rule)
+
+
+# ---------------------------------------------------------------------------------------------
 # D4: a source file that cannot be read ends in the configuration error the CLI gate maps
 # ---------------------------------------------------------------------------------------------
 # Defect 4eea17b: `_load_source_file` opened / decoded the file outside any converting `try`, so a source that is a
@@ -3499,6 +3927,7 @@ def run(repo: Repo, R: Report) -> None:
     # ------------------------------------------------------------------ D1/D2 source loading: cells keep their own key
     _source_columns(repo, R)
     _cell_converters(repo, R)
+    _record_units(repo, R)
     _declared_defaults(repo, R)
     _parse_time_keys(repo, R)
     read_errors_rule(repo, R)
